@@ -389,7 +389,58 @@ def part_sql(chk, drv):
     return n
 
 
+def _roles_sql(sql):
+    from sqllineage.runner import LineageRunner
+    lr = LineageRunner(sql, dialect="ansi")
+    return {"source": sorted(str(t) for t in lr.source_tables), "target": sorted(str(t) for t in lr.target_tables),
+            "intermediate": sorted(str(t) for t in lr.intermediate_tables)}
+
+
+DROP_FRAME_POOL = ["INSERT INTO a VALUES (1)", "CREATE TABLE a (x int)", "INSERT INTO b SELECT * FROM c", "SELECT * FROM e",
+                   "INSERT INTO t (c1) VALUES (1)", "CREATE TABLE t AS SELECT 1 AS x", "INSERT INTO t VALUES (1)",
+                   "INSERT INTO d (k) SELECT k FROM t", "INSERT INTO t (c1) SELECT c1 FROM a"]
+
+
+def part_drop_frame(chk):
+    """"DROP ... never disturbs other tables", on the implementation alone (no model): for scripts over statements WITH columns
+    (column lists, CTAS of constants - the abstract histories have none) the roles of every table other than `t` are the same
+    with and without a final / interposed `DROP TABLE t` (added after seeded change C03-4)"""
+    import itertools
+    n = 0
+    combos = [list(c) for k in (2, 3) for c in itertools.permutations(DROP_FRAME_POOL, k)]
+    chk.rng.shuffle(combos)
+    combos = combos[:200 if chk.tier == "thorough" else 40]
+    # the systematic core: every pair (plain statement, statement giving t columns) followed by the DROP
+    core = [[p1, p2] for p1 in DROP_FRAME_POOL[:4] for p2 in DROP_FRAME_POOL[4:7]]
+    for stmts in core + combos:
+        for pos in {len(stmts), max(1, len(stmts) - 1)}:
+            with_drop = stmts[:pos] + ["DROP TABLE t"] + stmts[pos:]
+            sql1 = ";\n".join(with_drop) + ";"
+            sql0 = ";\n".join(stmts) + ";"
+            try:
+                r1, r0 = _roles_sql(sql1), _roles_sql(sql0)
+            except Exception as e:  # noqa
+                chk.stale.append({"kind": "drop-frame", "sql": sql1, "error": type(e).__name__})
+                continue
+            n += 1
+            chk.count("dropframe:" + sql1, True)
+            # a DROP placed last: every other table keeps exactly its roles
+            if pos == len(stmts):
+                strip = lambda r: {k: [x for x in v if x != "<default>.t"] for k, v in r.items()}
+                if strip(r1) != strip(r0):
+                    chk.violation("DROP TABLE t changes the roles of OTHER tables",
+                                  {"kind": "drop-frame", "sql": sql1, "without_drop": sql0, "roles_with": r1, "roles_without": r0})
+                    return n
+    return n
+
+
 def replay(chk, obj):
+    if obj.get("replay", {}).get("kind") == "drop-frame":
+        r = obj["replay"]
+        r1, r0 = _roles_sql(r["sql"]), _roles_sql(r["without_drop"])
+        strip = lambda x: {k: [y for y in v if y != "<default>.t"] for k, v in x.items()}
+        print(json.dumps({"sql": r["sql"], "roles_with": r1, "roles_without": r0}, indent=1))
+        return 1 if strip(r1) != strip(r0) else 0
     r = obj["replay"]
     if r.get("kind") == "history":
         out = impl_outcome(r["history"])
@@ -442,6 +493,8 @@ def run(chk):
             chk.coverage["length4_sampled"] = len(hs)
     nm = part_multi_rename(chk, drv) if not chk.violations else 0
     ns = part_sql(chk, drv) if not chk.violations else 0
+    nd = part_drop_frame(chk) if not chk.violations else 0
+    chk.coverage["drop_frame_scripts"] = nd
     chk.sample({"history": [["rw", ["a", "b"], "c"], ["rw", ["c"], "a"], ["drop", "b"]],
                 "impl": impl_outcome([["rw", ["a", "b"], "c"], ["rw", ["c"], "a"], ["drop", "b"]])})
     chk.coverage.update({"exhaustive": exhaustive, "statement_values": len(vals), "histories_len_le3": sum(len(vals) ** k for k in range(1, depth + 1)),
